@@ -49,7 +49,12 @@ def gen(tier, rnd):
             else:
                 # an earlier batch in the same sequence, then a batch whose members finish while the loop is busy
                 elems = [{"batch": [leaf(sleep=0), leaf(sleep=0)]}, {"batch": [leaf(block="gate:g1", sleep=0), leaf(block="gate:g1", sleep=0)]}, {"leaf": leaf(sleep=0)}]
-        cases.append({"elems": elems, "paused": paused, "traffic": rnd.choice([0, 1, 3]), "gomaxprocs": rnd.choice([0, 0, 1, 4, 16])})
+        # a Sequence command stored in the model and returned again on a later Update (same command value, twice)
+        repeat = (not paused) and rnd.random() < 0.3
+        if repeat and not any(e is None for e in elems[:-1]):
+            elems = elems[:1] + [None] + elems[1:] + [{"leaf": leaf()}]
+        cases.append({"elems": elems, "paused": paused, "traffic": rnd.choice([0, 1, 3]), "gomaxprocs": rnd.choice([0, 0, 1, 4, 16]),
+                      "repeat": 2 if repeat else 1})
     return cases
 
 
@@ -68,7 +73,7 @@ def scenarios(cases):
                 seq_elems.append(spec_of(e["leaf"]))
             else:
                 seq_elems.append({"id": 0, "batch": [spec_of(x) for x in e["batch"]]})
-        upd = {"u:1": {"cmd": {"id": 0, "seq": seq_elems}}}
+        upd = {"u:1": {"cmd": {"id": 0, "seq": seq_elems, "cache": c.get("repeat", 1) > 1}}}
         script = [P.W("started")]
         senders = [[P.U(2000 + 100 * s + k) for k in range(6)] for s in range(c["traffic"])]
         if c["paused"]:
@@ -77,6 +82,8 @@ def scenarios(cases):
                        P.DO("gate", name="g1"), P.DO("sleep", us=25000), P.DO("release", label="update:u:77", all=True)]
         else:
             script += [P.DO("send", msg=P.U(1))]
+            if c.get("repeat", 1) > 1:
+                script += [P.DO("sleep", us=8000), P.W("idle"), P.DO("sleep", us=3000), P.W("idle"), P.DO("send", msg=P.U(1))]
         script += [P.DO("sleep", us=5000), P.W("idle"), P.DO("sleep", us=3000), P.W("idle"), P.DO("quit"), P.W("returned")]
         s = P.scenario(i, script, opts={"fps": 120}, update=upd, senders=senders, watchdog_ms=6000)
         if c["gomaxprocs"]:
@@ -106,6 +113,20 @@ def analyse(c, r):
             ivs.append((opened, e["c"]))
             opened = None
     elems = [e for e in c["elems"] if e is not None]
+    rep = c.get("repeat", 1)
+    if rep > 1:
+        # the same Sequence command dispatched `rep` times: every dispatch runs every element once and delivers its message
+        nupd = {}
+        for e in evs:
+            if e["ev"] == "UpdateBegin" and e.get("key", "").startswith("u:"):
+                nupd[int(e["key"][2:])] = nupd.get(int(e["key"][2:]), 0) + 1
+        for e in elems:
+            for x in ([e["leaf"]] if "leaf" in e else e["batch"]):
+                if nstart.get(x["id"], 0) != rep:
+                    probs.append(("repeat-starts", "a stored Sequence command was dispatched %d times; its command %d was started %d times" % (rep, x["id"], nstart.get(x["id"], 0))))
+                if x["ret"] is not None and nupd.get(x["ret"], 0) != rep:
+                    probs.append(("repeat-messages", "a stored Sequence command was dispatched %d times; the message of its command %d reached Update %d times" % (rep, x["id"], nupd.get(x["ret"], 0))))
+        return probs
     prev_done = None       # clock after which the next element may start
     prev_ids = None
     last_upd = -1
@@ -228,11 +249,11 @@ def run(res, tier, seed):
         pr = analyse(c, r)
         if pr:
             py_bad.append((i, pr))
-        rows.append(coq_row(i, c, r))
-    body = ["Definition rows : list (nat * (cmdid -> msg) * list ev) := [%s]." % ";\n ".join(rows),
-            "Definition bad := map (fun x => fst (fst x)) (filter (fun x => negb (sequences_ok (snd (fst x)) (snd x))) rows)."]
-    vals, _ = C.coq_eval("cases_C03", PRE, body, ["bad"], timeout=1500)
-    bad = C.parse_nat_list(C.parse_coq_value(vals["bad"]))
+        if c.get("repeat", 1) == 1:
+            rows.append(coq_row(i, c, r))
+    rows_def = "Definition rows : list (nat * (cmdid -> msg) * list ev) := [%s]."
+    body = ["Definition bad := map (fun x => fst (fst x)) (filter (fun x => negb (sequences_ok (snd (fst x)) (snd x))) rows)."]
+    bad, _ = C.coq_eval_sharded("cases_C03", PRE, rows, rows_def, body, "bad", shard=100)
     res.oblige("Spec on real logs (Coq: Spec.ConcSpec.sequences_ok on the projected start/end log: element order, nil entries skipped, a batch's members all started after it and all finished before the next element), %d runs" % len(cases),
                not bad, [cases[i]["elems"] for i in bad[:1]])
     res.oblige("Spec on real logs: each element started once, after the previous finished AND after the loop could have received its message(s); messages reach Update in sequence order; nil entries/results do not stall",
@@ -255,7 +276,7 @@ def run(res, tier, seed):
         "nil_entries": sum(1 for c in cases for e in c["elems"] if e is None),
         "nil_results": sum(1 for c in cases for e in c["elems"] if e and "leaf" in e and e["leaf"]["ret"] is None),
         "batch_elements": sum(1 for c in cases for e in c["elems"] if e and "batch" in e),
-        "with_traffic": sum(1 for c in cases if c["traffic"]),
+        "with_traffic": sum(1 for c in cases if c["traffic"]), "stored_and_dispatched_twice": sum(1 for c in cases if c.get("repeat", 1) > 1),
     }
     res.coverage["traces_validated_against_impl"] = len(cases)
     res.samples = [{"elems": c["elems"], "paused": c["paused"]} for c in cases[:3]]
